@@ -214,23 +214,28 @@ func buildCases(tier string) ([]scen.Case, map[string]caseInfo) {
 			}
 		}
 	}
-	// JSON bodies
+	// JSON bodies, with and without a validator of their own on the @Body annotation
 	for _, ptr := range []bool{false, true} {
 		for _, shape := range []string{"struct", "[]struct"} {
-			id := fmt.Sprintf("b%04d", n)
-			n++
-			t := "Body" + id
-			if shape == "[]struct" {
-				t = "[]" + t
-			} else if ptr {
-				t = "*" + t
+			for _, bv := range []string{"", "required", "min=1"} {
+				if bv == "min=1" && shape != "[]struct" {
+					continue
+				}
+				id := fmt.Sprintf("b%04d", n)
+				n++
+				t := "Body" + id
+				if shape == "[]struct" {
+					t = "[]" + t
+				} else if ptr {
+					t = "*" + t
+				}
+				m := scen.Method{Name: "Op" + id, Verb: "POST", Route: scen.S("/op"), Ret: "string", Params: []scen.Param{{Name: "p", Type: t, In: "Body", Validate: bv}}}
+				ctl := scen.Controller{Name: "C" + id, Pkg: id, Prefix: scen.S("/" + id), Tag: scen.S("T" + id), Methods: []scen.Method{m}}
+				decl := "type Body" + id + " struct {\n\tA string `json:\"a\" validate:\"required\"`\n\tN int `json:\"n\" validate:\"gte=0\"`\n}\n"
+				cases = append(cases, scen.Case{ID: id, Unit: scen.Unit{Controllers: []scen.Controller{ctl}, Decls: map[string]string{id: decl}},
+					Features: map[string]string{"kind": shape, "in": "Body", "ptr": fmt.Sprint(ptr), "validate": bv}, Desc: ctl})
+				inf[id] = caseInfo{K: kind{Name: shape}, Loc: "Body", Ptr: ptr, Validate: bv}
 			}
-			m := scen.Method{Name: "Op" + id, Verb: "POST", Route: scen.S("/op"), Ret: "string", Params: []scen.Param{{Name: "p", Type: t, In: "Body"}}}
-			ctl := scen.Controller{Name: "C" + id, Pkg: id, Prefix: scen.S("/" + id), Tag: scen.S("T" + id), Methods: []scen.Method{m}}
-			decl := "type Body" + id + " struct {\n\tA string `json:\"a\" validate:\"required\"`\n\tN int `json:\"n\" validate:\"gte=0\"`\n}\n"
-			cases = append(cases, scen.Case{ID: id, Unit: scen.Unit{Controllers: []scen.Controller{ctl}, Decls: map[string]string{id: decl}},
-				Features: map[string]string{"kind": shape, "in": "Body", "ptr": fmt.Sprint(ptr)}, Desc: ctl})
-			inf[id] = caseInfo{K: kind{Name: shape}, Loc: "Body", Ptr: ptr}
 		}
 	}
 	return cases, inf
@@ -403,7 +408,11 @@ func makeReqsFor(inf map[string]caseInfo, metas map[string]reqMeta) func(scen.Ca
 			wantOne := `{"a":"x","n":1}`
 			if ci.K.Name == "[]struct" {
 				mk(value{"[" + one + "," + one + "]", "exact", "[" + wantOne + "," + wantOne + "]"}, false)
-				mk(value{"[]", "exact", "[]"}, false)
+				if ci.Validate == "min=1" {
+					mk(value{"[]", "reject", ""}, false) // the body's own validator demands one element
+				} else {
+					mk(value{"[]", "exact", "[]"}, false)
+				}
 				mk(value{`[{"n":1}]`, "reject", ""}, false)
 				mk(value{one, "reject", ""}, false)
 			} else {
@@ -554,8 +563,8 @@ func Main(tier, replay string) {
 					}
 				}
 				switch {
-				case m.Absent && ci.Loc == "Body":
-					// an absent JSON body: not judged beyond "no silent garbage"
+				case m.Absent && ci.Loc == "Body" && ci.Ptr:
+					// an absent optional JSON body: not judged beyond "no silent garbage"
 				case m.Absent && !ci.Ptr:
 					mustReject("omitting a non-pointer parameter")
 				case m.Absent && ci.Ptr && ci.Validate != "":
